@@ -20,6 +20,9 @@ def check_sign_parity(prog: Program, res: Result, prop: str) -> dict:
     exp = {MIN: +1, MAX: -1}
     for tt in (MIN, MAX):
         ok = f["signs"][tt] == exp[tt]
+        if f["signs"][tt] is None:
+            res.errors.append(f"{fi.loc()} _fcn under {tt}: the sign of the returned value is undecided ({f['why'][tt]})")
+            continue
         res.ob(ok, f"{fi.loc()} _fcn under {tt}: sign {f['signs'][tt]}", f"_fcn:{tt}")
         if not ok:
             res.add(Finding(prop, f"{prop}.SGN-fcn", construct_key(prog, fi.node.body[-1], fi.module) + f"::{tt}", fi.loc(),
@@ -43,6 +46,9 @@ def check_sign_parity(prog: Program, res: Result, prop: str) -> dict:
                                                   lambda z: _kwargs_take(origin(init.node, z) if isinstance(z, ast.Name) else z, "best_solution"),
                                                   dir_names, tt)
         ok = sign == exp[tt]
+        if sign is None:
+            res.errors.append(f"{init.loc()} best_solution under {tt}: the sign of the reported cost is undecided ({why})")
+            continue
         res.ob(ok, f"{init.loc()} best_solution under {tt}: sign {sign}", f"refine_best_solution:{tt}")
         if not ok:
             res.add(Finding(prop, f"{prop}.SGN-restore", f"models.OptimizationResult.__init__::restore::{tt}", init.loc(),
@@ -146,6 +152,9 @@ def check_packaging(prog: Program, res: Result, prop: str, need_fresh: bool = Fa
         sign, by_copy = (kind[1], kind[2]) if isinstance(kind, tuple) else (None, True)
         want = +1 if tt == MIN else -1
         ok = sign == want
+        if sign is None:
+            res.errors.append(f"{init.loc()} Population under {tt}: what is recorded is undecided ({why or kind})")
+            continue
         res.ob(ok, f"{init.loc()} Population under {tt}: agent cost sign {sign}, fresh list={fresh}", f"Population.__init__:{tt}")
         if ok and not by_copy:
             res.ob(False)
